@@ -261,9 +261,41 @@ def explorations(thorough, seed):
     return out
 
 
+def gpt_case(part, item):
+    """GPT-NeoX: construction (and a few iterations) on a 3-D topology;
+    the oracle is simdist (matching, membership, new_group, stalls)."""
+    P, D, M, hist, bias, sname = item
+    from vf import gptrun as G
+
+    cfg = {'dp': D, 'mp': M, 'pp': P, 'bias': bias, 'batch': 2, 'seed': 0,
+           'kfac': dict(damping=0.05, factor_decay=0.5, kl_clip=1e-3,
+                        lr=0.1, allreduce_bucket_cap_mb=25.0),
+           'loss_mult': 4.0, 'history': hist}
+    name = f'gpt topology=({P},{D},{M}) bias={bias} history=' \
+           f'{hist_name(hist)}'
+    try:
+        w = simdist.run_world(P * D * M, G.make_program(cfg), sname)
+        bad = DC.sim_bad(w)
+        for r in range(w.n):
+            for e in w.trace[r]:
+                if e['tag'] == ('final-flush',):
+                    bad.append(('pending-bucket', f'rank{r}'))
+                    break
+    except Exception as e:  # noqa
+        bad = [('harness', f'{type(e).__name__}: {e}')]
+    part.count('executions')
+    part.count('transitions')
+    if bad:
+        cls = f"pipe{'>1' if P > 1 else '=1'}:data{'>1' if D > 1 else '=1'}" \
+              f":model{'>1' if M > 1 else '=1'}"
+        part.violation(f'gpt:{bad[0][0]}:{cls}', f'{name} [{sname}]: '
+                       f'{bad[0][1]}', {'gpt': list(item)})
+    part.seen('nontrivial', name)
+
+
 def any_case(part, item):
     kind, payload = item
-    {'bfs': bfs_case, 'explore': explore_case,
+    {'bfs': bfs_case, 'explore': explore_case, 'gpt': gpt_case,
      'construct': construct_case}[kind](part, payload)
 
 
@@ -281,7 +313,20 @@ def main(run: core.Run):
         for k in [d for d in range(1, world + 1) if world % d == 0]:
             items.append(('construct', (world, k, 'float')))
 
+    T, S, L = ['train'], ['state'], ['ckpt', True, True]
+    for P, D, M in itertools.product((1, 2, 3), repeat=3):
+        items.append(('gpt', (P, D, M, [], True, 'S0-lowest-eager')))
+    for D, M in ((2, 1), (1, 2), (2, 2)):
+        for bias in (True, False):
+            for sname in snames:
+                items.append(('gpt', (1, D, M, [T, T, S, L, T], bias,
+                                      sname)))
+    items.append(('gpt', (2, 2, 2, [T, T], True, 'S3-lowest-lazy-poison')))
+
     def weight(it):
+        if it[0] == 'gpt':
+            return 40 * it[1][0] * it[1][1] * it[1][2] * (
+                1 + len(it[1][3]))
         if it[0] == 'bfs':
             return 300 * it[1][0]['world'] ** 2
         if it[0] == 'explore':
@@ -306,7 +351,9 @@ def main(run: core.Run):
         'colocation, each history run under 2-3 schedules incl. lazy '
         'delivery; exhaustive / deviation-bounded interleavings of small '
         'histories with load/state/memory operations; construction for '
-        'every world <= 16 x divisor; oracle = matching of kind/shape/'
+        'every world <= 16 x divisor; GPT-NeoX construction on every (pipe,'
+        ' data, model) in {1,2,3}^3 and train/state/load histories on '
+        '(2,1),(1,2),(2,2),(2,2,2); oracle = matching of kind/shape/'
         'dtype/root per group instance, membership, identical new_group '
         'sequences, no stall, every instance completed, no open bucket')
     run.sample({'config': name_of(cfgs[0]),
@@ -324,6 +371,9 @@ def replay(run, data):
     part = core.Part()
     if d.get('mode') == 'explore':
         explore_case(part, (d['cfg'], d['delivery'], d['bound']))
+    elif 'gpt' in d:
+        it = d['gpt']
+        gpt_case(part, (it[0], it[1], it[2], it[3], it[4], it[5]))
     else:
         w, bad = run_history(d['cfg'], d['history'], d['schedule'])
         part.count('executions')
